@@ -134,7 +134,17 @@ class C20Monitor(Monitor):
 
     def on_end(self, w):
         self._scan(w, "between_trials")
-        d = w.mc.to_dict()
+        try:
+            d = w.mc.to_dict()
+        except Exception as e:  # noqa: BLE001
+            from simkit.core import classify_exception
+
+            info = classify_exception(e)
+            self._scan(w, "serialization")
+            self.violate(w, "serialization_fails_with_user_objects", f"type={info['type']}|where={info['where']}|driver={w.sc['driver']}",
+                         "mc.to_dict() raised with protocol-only user objects (which are free to hold resources that cannot be "
+                         "copied) in the table:\n" + info["text"])
+            return
         self._scan(w, "serialization")
         for p, obj in w.bare_objs.items():
             if p.endswith("#criteria"):
